@@ -98,6 +98,11 @@ def run_line(ctx, p):
         for pt in pts:
             r = ref.point_line_residual(pt, v, w)
             ctx.judge('incidence', r <= TOL * m, dict(sig, kind='defining_point_off_line'), lambda: '%s: defining point %s is %.3g from the line (v=%s w=%s)' % (what(), pt, r, v, w))
+        # ... and the line's own membership test, as shipped (default tolerance), says so too: defining points and point(lambda)
+        for pt in pts + [np.asarray(L.point(lam_), dtype=np.float64).reshape(-1) for lam_ in p['lams'][:2]]:
+            inside = bool(L.contains(pt))
+            ctx.judge('incidence', inside, dict(sig, kind='contains_rejects_own_point'),
+                      lambda: '%s: contains(%s) is False for a point of the line (incidence residual %.3g, data magnitude %.3g)' % (what(), pt, ref.point_line_residual(pt, v, w), m))
         # direction parallel to the defining direction, same orientation
         par = float(np.linalg.norm(np.cross(w / np.linalg.norm(w), d / np.linalg.norm(d))))
         ctx.judge('incidence', par <= TOL and np.dot(w, d) > 0, dict(sig, kind='direction_wrong'), lambda: '%s: w=%s is not along %s' % (what(), w, d))
